@@ -244,9 +244,15 @@ def finish(prop, tier, seed, repo, hs, results, extra, wall, args):
             for n, e in baseline.items():
                 if e.get("tier") == "thorough" and n not in new:
                     new[n] = e
-        baseline_all[prop] = new
-        with open(BASELINE, "w") as fh:
-            json.dump(baseline_all, fh, indent=1, sort_keys=True)
+        import fcntl
+        with open(BASELINE + ".lock", "w") as lock:      # several properties may be updated at the same time: read-modify-write under a lock
+            fcntl.flock(lock, fcntl.LOCK_EX)
+            baseline_all = load_json(BASELINE, {})
+            baseline_all[prop] = new
+            tmp = BASELINE + ".tmp.%d" % os.getpid()
+            with open(tmp, "w") as fh:
+                json.dump(baseline_all, fh, indent=1, sort_keys=True)
+            os.replace(tmp, BASELINE)
     if not args.only and not os.environ.get("VCHECK_NO_EVIDENCE"):
         write_evidence(prop, tier, seed, repo, hs, ob_rows, discharged, violations, undecided, errors, notes, functions, interpreted,
                        solver_seconds, conc_runs, conc_distinct, samples, bounded_rows, fired, wall, extra, fired_obligations)
